@@ -135,6 +135,35 @@ def rule_x3(chk: Check) -> None:
             ok = False
             chk.finding("X3", cb.key, f"timeout-status:{norm(arg)[:40]}", "the timeout reply is not a literal status-40 header", w.where())
     chk.ob("X3", f"{cb.key}: replies 40", ok, evals=len(ws))
+    # X3b: nothing that can raise on peer-controlled bytes runs before the close
+    from ..cfg import ExcLattice, handler_types
+    from .c13 import _raise_set
+
+    gi = Builder(chk.proj, inline_self_methods, 3).build(cb)
+    lat = ExcLattice(chk.proj)
+    closes = {n.id for n in nodes_calling(gi, lambda c: method_call(c) is not None and method_call(c)[1] in ("close", "abort") and "transport" in (dotted(method_call(c)[0]) or ""))}
+    before = gi.reach([gi.entry.id], blocked_nodes=closes)
+    n_cat = 0
+    for n in gi.nodes:
+        if n.ast is None or n.kind not in ("stmt", "test") or n.id not in before or n.id in closes:
+            continue
+        for c in calls(n.ast):
+            rs = _raise_set(c)
+            if not rs:
+                continue
+            n_cat += 1
+            hs = [gi.nodes[b] for b, lab in gi.succ[n.id] if lab == "exc" and gi.nodes[b].kind == "handler"]
+            missing = {r for r in rs if not any(lat.is_sub(r, t, n.func.module) is True for h in hs for t in handler_types(h.ast))}
+            unclosed = [h for h in hs if gi.exit.id in gi.reach([h.id], blocked_nodes=closes)]
+            good = not missing and not unclosed
+            if not good:
+                chk.finding(
+                    "X3", cb.key, f"raise-before-close:{norm(c)[:40]}",
+                    f"`{norm(c)}` runs in the timer callback before the connection is closed and can raise {sorted(missing) or sorted(rs)} on bytes the silent peer chose (e.g. a partial request that is not valid UTF-8): the exception leaves the callback, nothing is written or closed, and no timer remains armed",
+                    n.where(),
+                )
+            chk.ob("X3", f"{cb.key}: `{norm(c)[:40]}` before close cannot escape", good)
+    chk.ob("X3", f"{cb.key}: value-dependent raising calls before the close are contained", True, f"{n_cat} catalogue calls (strict decode / int) before close", evals=len(before))
 
 
 def rule_x4(chk: Check) -> None:
